@@ -502,6 +502,12 @@ def alias_map(fnode):
     for name, defs in local_defs(fnode).items():
         if len(defs) == 1 and isinstance(defs[0], ast.AST) and isinstance(defs[0], (ast.Attribute, ast.Subscript)) and pure(defs[0]):
             out[name] = src(defs[0])
+        elif len(defs) == 1 and isinstance(defs[0], tuple) and defs[0][0] == 'unpack' and isinstance(defs[0][1], ast.Tuple) \
+                and defs[0][2] < len(defs[0][1].elts):
+            # a, b = X.P, X.Q
+            e = defs[0][1].elts[defs[0][2]]
+            if isinstance(e, (ast.Attribute, ast.Subscript)) and pure(e):
+                out[name] = src(e)
     return out
 
 
